@@ -131,9 +131,16 @@ def probe(ctx, rep, tier, rng, items, meta, cls, clean, base, path, ncls, kind, 
     if rng.random() < wire_p:
         for form, render in (("xml", render_xml), ("sgml", render_sgml)):
             try:
-                t_clean = parse_body(ctx, render(clean)); t_dirty = parse_body(ctx, render(dirty))
+                t_clean = parse_body(ctx, render(clean))
             except Exception as e:
-                continue    # tokenizer trouble on the clean or contaminated text is C02/C08's subject
+                continue    # tokenizer trouble on the CLEAN text is C02/C08's subject
+            try:
+                t_dirty = parse_body(ctx, render(dirty))
+            except Exception as e:   # the clean text parses and the text with the unknown subtree does not: the unknown tags broke the document
+                rep.count((cls.__name__, kind, path, pos, u.tag, form), nontrivial=True, kind="wire-%s:%s" % (form, kind))
+                rep.failures.append(C.Failure("insert-%s:document-rejected" % kind, "(%s rendering) inserting %s into %s of a valid %s makes the parser reject the document: %s: %s"
+                                              % (form, case["inserted"], ncls.__name__, cls.__name__, type(e).__name__, e), dict(case, form=form)))
+                continue
             b2, _ = H.run_from_etree(ctx, t_clean)
             g2, _ = H.run_from_etree(ctx, t_dirty)
             rep.count((cls.__name__, kind, path, pos, u.tag, form), nontrivial=True, kind="wire-%s:%s" % (form, kind))
@@ -210,6 +217,37 @@ def run(rep, tier, rng):
                     ET.SubElement(u, "CODE").text = "7"
                     ET.SubElement(u, inner).text = "9"
                     probe(ctx, rep, tier, rng, items, meta, cls, clean, base, (), cls, "aggregate-holding-renamed-tag", u, pos, wire_p=1.0)
+    # ---- unknown subtrees that repeat a tag on the way down: an unknown aggregate directly holding an aggregate of its OWN tag (plain and
+    #      vendor-dotted), and an unknown AGGREGATE named like the aggregate that receives it (aggregates always carry their end tag, so the SGML
+    #      ambiguity that keeps same-named DATA elements out does not arise).  Own PRNG stream: the draws of the streams above stay as they were.
+    import os, random
+    srng = random.Random("c07-selfnest-%s" % os.environ.get("VERIF_SEED", "20260101"))
+    pick = [c for n, c in enumerate(ctx.concrete) if tier == "thorough" or (n + srng.randrange(2)) % 2 == 0]
+    for cls in pick:
+        obj = H.gen_instance(ctx, cls, srng, depth=2)
+        if obj is None:
+            continue
+        try:
+            clean = obj.to_etree()
+        except Exception:
+            continue
+        base, _ = H.run_from_etree(ctx, clean)
+        if base[0] != "ok":
+            continue
+        path, _, ncls = srng.choice(agg_nodes(ctx, clean))
+        pos = srng.randint(0, len(node_at(clean, path)))
+        t = srng.choice(["GROUP", "INTU.X", "ZZTOP", "401K.DETAIL"])
+        u = ET.Element(t)
+        inner = ET.SubElement(u, t); ET.SubElement(inner, "CODE").text = "7"
+        if srng.random() < 0.5:
+            ET.SubElement(ET.SubElement(inner, t), "DEEP").text = "x"
+        ET.SubElement(u, "MEMO").text = "9"
+        probe(ctx, rep, tier, srng, items, meta, cls, clean, base, path, ncls, "self-nested-aggregate", u, pos, wire_p=1.0)
+        if ncls.__name__.lower() not in ncls.spec:
+            u = ET.Element(ncls.__name__)
+            ET.SubElement(u, "CODE").text = "0"
+            ET.SubElement(ET.SubElement(u, "INNER"), "DEEP").text = "x"
+            probe(ctx, rep, tier, srng, items, meta, cls, clean, base, path, ncls, "aggregate-named-as-receiver", u, srng.randint(0, len(node_at(clean, path))), wire_p=1.0)
     for m in meta[:3]:
         rep.sample(m)
     rep.rule = ("every concrete class: %d valid instance(s) -> to_etree; %d insertions each at a random aggregate node and position, kinds %s, tags unknown to the receiving class "
